@@ -78,7 +78,9 @@ def transform_to_spatial_orbitals(expr: Expr, target_idx: str,
                                    " because the index with alpha spin is "
                                    f"already used in the term: {term}.")
             sub[old] = new
-        restricted_expr += term.sympy.subs(order_substitutions(sub))
+        # simultaneous replacement: a sequential one passes through
+        # delta(alpha, beta) = 0
+        restricted_expr += term.sympy.xreplace(sub)
     return restricted_expr
 
 
